@@ -23,7 +23,7 @@ import (
 func TestVerifC02(t *testing.T) {
 	vfMain(t, vfCheck{
 		ID: "C02", Level: "exploration",
-		Rule: "seeded fully pipelined request programs (depth 1..400; OPEN/OPENDIR/READ/WRITE/CLOSE/FSTAT/FSETSTAT/READDIR on live, stale, bogus and wrong-kind handles, path commands on existing/missing paths, zero-length and maximal reads/writes, known and unknown extended requests) against Server and RequestServer with allocator on/off, GOMAXPROCS in {1,2,16}, seeded delays at the worker/ready/dispatch hooks and in handler ReadAt/WriteAt. A class is (server, allocator, GOMAXPROCS, depth bucket, delay profile); a program is non-trivial when the hook log shows at least one completion-order inversion.",
+		Rule:        "seeded fully pipelined request programs (depth 1..400; OPEN/OPENDIR/READ/WRITE/CLOSE/FSTAT/FSETSTAT/READDIR on live, stale, bogus and wrong-kind handles, path commands on existing/missing paths, zero-length and maximal reads/writes, known and unknown extended requests) against Server and RequestServer with allocator on/off, GOMAXPROCS in {1,2,16}, seeded delays at the worker/ready/dispatch hooks and in handler ReadAt/WriteAt. A class is (server, allocator, GOMAXPROCS, depth bucket, delay profile); a program is non-trivial when the hook log shows at least one completion-order inversion.",
 		Assumptions: []string{"input stays open until all responses arrived (responses at EOF belong to C07's prefix rule)", "race detector on"},
 		Units: func(tier vfTier, seed uint64) int {
 			if tier == vfThorough {
